@@ -293,7 +293,7 @@ pub fn exec_rw(start: Vec<ATerm>, rules: Vec<usize>, iters: usize, subst_extract
         // half of the runs: the very same rule objects have been used on another e-graph before (rules carry no state from
         // one e-graph to the next)
         if desc_hash % 2 == 1 {
-            let mut warm: EGraph<Main> = EGraph::new(());
+            let mut warm: EGraph<Main> = if subst_extraction { EGraph::with_subst_method::<ExtractionSubst>(()) } else { EGraph::new(()) };
             for t in &start {
                 warm.add_expr(to_recexpr::<Main>(t));
             }
